@@ -272,6 +272,18 @@ func Main(args []string) int {
 			}
 		}
 	}
+	// values that differ only in bytes a directory name or an id file might normalise: separators, NUL, blanks at the edges
+	family := []string{"a/b", "a_b", "a\x00b", "a b", "a", "a ", " a", "a\n", "\ta", " ", "_", "a\\b", "A", "a.", "a\r"}
+	for _, a := range family {
+		for _, b := range family {
+			if o.Mine() {
+				scenario(o, work, 1, "x-$k1", []any{lit("x-"), key(1)}, []tuple{{a}, {b}, {a}}, []tuple{{b}, {a}}, false)
+			}
+			if o.Mine() {
+				scenario(o, work, 2, "t.$k1.$k2", []any{lit("t."), key(1), lit("."), key(2)}, []tuple{{a, "k"}, {b, "k"}, {"k", a}}, []tuple{{b, "k"}, {a, "k"}, {"k", a}}, false)
+			}
+		}
+	}
 	small := []string{"", "a", ",", "a,"}
 	var tuples3 []tuple
 	for _, a := range small {
